@@ -4,3 +4,5 @@
 #![allow(missing_docs, clippy::unwrap_used, missing_debug_implementations, unreachable_pub)]
 
 pub use iroh_base::verif_hooks as sched;
+pub mod c34;
+pub mod c33;
